@@ -1107,4 +1107,130 @@ theorem c06_unknown_key_e2e_witness :
                      cliFiles := none, cmd := [] } }
     = .error (.raise .runtimeError) := rfl
 
+/-! ### Optional members: instance or `None` (the collapse decision of `_create_dataclass_instance`) -/
+
+/-- some leaf below receives an explicit command-line value different from its default -/
+def hasNonDefaultArg : OT → Bool
+  | .nil => false
+  | .leaf _ d a rest => (match a with
+                         | some v => !J.eqScalar v d
+                         | none => false) || hasNonDefaultArg rest
+  | .member _ _ sub rest => hasNonDefaultArg sub || hasNonDefaultArg rest
+
+theorem atDefault_eq_not_hasNonDefaultArg : ∀ t : OT, atDefault t = !hasNonDefaultArg t
+  | .nil => rfl
+  | .leaf n d a rest => by
+    cases a with
+    | none => simp [atDefault, hasNonDefaultArg, atDefault_eq_not_hasNonDefaultArg rest]
+    | some v => cases h : J.eqScalar v d <;> simp [atDefault, hasNonDefaultArg, h, atDefault_eq_not_hasNonDefaultArg rest]
+  | .member n o sub rest => by
+    simp [atDefault, hasNonDefaultArg, atDefault_eq_not_hasNonDefaultArg sub, atDefault_eq_not_hasNonDefaultArg rest]
+
+/-- **a command-line value different from its default, anywhere below an Optional member, makes the member an
+    instance** (true since 3f531df + d1d203e) -/
+theorem c06_member_instance_of_nondefault_arg (n : Str) (opt : Bool) (sub rest : OT)
+    (h : hasNonDefaultArg sub = true) :
+    collapse opt sub = false ∧ dget (built (.member n opt sub rest)) n = some (.dict (built sub)) := by
+  have hc : collapse opt sub = false := by simp [collapse, atDefault_eq_not_hasNonDefaultArg, h]
+  exact ⟨hc, by simp [built, dget, hc]⟩
+
+/-- the leaf at a path of names (first field with each name): its default and its explicit value -/
+def leafAt : OT → List Str → Option (J × Option J)
+  | .nil, _ => none
+  | .leaf _ _ _ _, [] => none
+  | .member _ _ _ _, [] => none
+  | .leaf n d a rest, k :: q => if k = n then (if q = [] then some (d, a) else none) else leafAt rest (k :: q)
+  | .member n _ sub rest, k :: q => if k = n then leafAt sub q else leafAt rest (k :: q)
+
+theorem hasNonDefaultArg_of_leafAt : ∀ (t : OT) (p : List Str) (d v : J),
+    leafAt t p = some (d, some v) → J.eqScalar v d = false → hasNonDefaultArg t = true
+  | .nil, p, d, v, h, _ => by simp [leafAt] at h
+  | .leaf n d0 a rest, p, d, v, h, hne => by
+    cases p with
+    | nil => simp [leafAt] at h
+    | cons k q =>
+      by_cases hk : k = n
+      · by_cases hq : q = []
+        · simp [leafAt, hk, hq] at h
+          obtain ⟨rfl, rfl⟩ := h
+          simp [hasNonDefaultArg, hne]
+        · simp [leafAt, hk, hq] at h
+      · simp only [leafAt, hk, if_false] at h
+        simp [hasNonDefaultArg, hasNonDefaultArg_of_leafAt rest (k :: q) d v h hne]
+  | .member n o sub rest, p, d, v, h, hne => by
+    cases p with
+    | nil => simp [leafAt] at h
+    | cons k q =>
+      by_cases hk : k = n
+      · simp only [leafAt, hk, if_true] at h
+        simp [hasNonDefaultArg, hasNonDefaultArg_of_leafAt sub q d v h hne]
+      · simp only [leafAt, hk, if_false] at h
+        simp [hasNonDefaultArg, hasNonDefaultArg_of_leafAt rest (k :: q) d v h hne]
+
+/-- **the value is not lost**: an explicit command-line value different from the leaf's default is found at the leaf's
+    path in the result, however many Optional (or plain) members lie above it -/
+theorem c06_cmd_value_reaches_result : ∀ (t : OT) (p : List Str) (d v : J),
+    leafAt t p = some (d, some v) → J.eqScalar v d = false → getPath p (.dict (built t)) = some v
+  | .nil, p, d, v, h, _ => by simp [leafAt] at h
+  | .leaf n d0 a rest, p, d, v, h, hne => by
+    cases p with
+    | nil => simp [leafAt] at h
+    | cons k q =>
+      by_cases hk : k = n
+      · by_cases hq : q = []
+        · simp [leafAt, hk, hq] at h
+          obtain ⟨rfl, rfl⟩ := h
+          simp [built, getPath, dget, hk, hq]
+        · simp [leafAt, hk, hq] at h
+      · simp only [leafAt, hk, if_false] at h
+        have ih := c06_cmd_value_reaches_result rest (k :: q) d v h hne
+        have hk' : ¬ n = k := fun e => hk e.symm
+        simpa [built, getPath, dget, hk'] using ih
+  | .member n o sub rest, p, d, v, h, hne => by
+    cases p with
+    | nil => simp [leafAt] at h
+    | cons k q =>
+      by_cases hk : k = n
+      · subst hk
+        simp only [leafAt, if_true] at h
+        have hc := (c06_member_instance_of_nondefault_arg k o sub rest
+          (hasNonDefaultArg_of_leafAt sub q d v h hne)).1
+        have ih := c06_cmd_value_reaches_result sub q d v h hne
+        simpa [built, getPath, dget, hc] using ih
+      · simp only [leafAt, hk, if_false] at h
+        have ih := c06_cmd_value_reaches_result rest (k :: q) d v h hne
+        have hk' : ¬ n = k := fun e => hk e.symm
+        simpa [built, getPath, dget, hk'] using ih
+
+/-- `R.inner: Optional[Inner] = None`, `Inner.x = 2`, `Inner.deep: Optional[Deep] = None`, `Deep.y = 1`, argv `--y 15` -/
+def otDeep : OT :=
+  .leaf ['a'] (.int 4) none
+    (.member ['i', 'n', 'n', 'e', 'r'] true
+      (.leaf ['x'] (.int 2) none (.member ['d', 'e', 'e', 'p'] true (.leaf ['y'] (.int 1) (some (.int 15)) .nil) .nil)) .nil)
+
+example : getPath [['i', 'n', 'n', 'e', 'r'], ['d', 'e', 'e', 'p'], ['y']] (.dict (built otDeep)) = some (.int 15) :=
+  c06_cmd_value_reaches_result otDeep _ (.int 1) (.int 15) rfl rfl
+
+/-- the statement for the rule the code had before 3f531df / d1d203e (only the member's own direct fields compared) -/
+def CollapseOldSound : Prop := ∀ (opt : Bool) (sub : OT), hasNonDefaultArg sub = true → collapseOld opt sub = false
+
+/-- **witness**: under the old rule `--y 15` for `inner.deep.y` left `inner = None` (the command-line value was lost) -/
+theorem c06_collapse_old_witness : ¬ CollapseOldSound := by
+  intro h
+  have := h true (.leaf ['x'] (.int 2) none (.member ['d', 'e', 'e', 'p'] true (.leaf ['y'] (.int 1) (some (.int 15)) .nil) .nil)) rfl
+  simp [collapseOld, directAtDefault] at this
+
+example : dget (builtOld otDeep) ['i', 'n', 'n', 'e', 'r'] = some .null := rfl
+
+/-- **the open finding C06-optional-cmd-repeats-default, in the model**: explicit values that all repeat their
+    defaults are indistinguishable from no argument — the Optional member stays `None` and they are lost -/
+theorem c06_repeats_default_collapses (n : Str) (sub rest : OT) (h : hasNonDefaultArg sub = false) :
+    dget (built (.member n true sub rest)) n = some .null := by
+  simp [built, dget, collapse, atDefault_eq_not_hasNonDefaultArg, h]
+
+/-- witness of that finding: `--x 2` with `Inner.x = 2` -/
+example : dget (built (.member ['i', 'n', 'n', 'e', 'r'] true (.leaf ['x'] (.int 2) (some (.int 2)) .nil) .nil))
+    ['i', 'n', 'n', 'e', 'r'] = some .null :=
+  c06_repeats_default_collapses _ _ _ rfl
+
 end SpVerif.C06
